@@ -272,6 +272,26 @@ func buildVal(n *sx) (any, error) {
 		v := int64(5)
 		p := &v
 		return []any{p, p, map[string]any{"p": p}}, nil
+	case "sharedptr":
+		// two posts that point to one author: a shared pointer, not a cycle
+		type Author struct{ Name string }
+		type Post struct {
+			Title  string
+			Author *Author
+		}
+		ann := &Author{Name: "Ann"}
+		return []Post{{Title: "a", Author: ann}, {Title: "b", Author: ann}}, nil
+	case "sharedslice":
+		// one slice held by two fields and twice by an outer slice
+		tags := []string{"x", "y"}
+		return struct {
+			A, B []string
+			All  [][]string
+		}{tags, tags, [][]string{tags, tags}}, nil
+	case "sharedmap":
+		// one map under two keys, and inside a slice under a third
+		meta := map[string]any{"k": int64(1)}
+		return map[string]any{"a": meta, "b": meta, "l": []any{meta, meta}}, nil
 	case "nilchan":
 		var c chan int
 		return c, nil
